@@ -149,8 +149,8 @@ fn inputs(maxlen: usize) -> Vec<Vec<(i64, i64)>> {
 fn build(tier: Tier) -> Vec<Scenario> {
     let mut out = vec![];
     let maxlen = match tier {
-        Tier::Quick => 2,
-        Tier::Thorough => 3,
+        Tier::Quick => 3,
+        Tier::Thorough => 4,
     };
     let ins = inputs(maxlen);
     for a in [Algo::Hash, Algo::SortMerge, Algo::Keyed, Algo::BroadcastHash, Algo::BroadcastSortMerge] {
